@@ -42,10 +42,12 @@ def region(B, kind, name, unit='deg'):
     if kind == 'polygon':
         n = B.int('n')       # both polygons of a pair have the same number of vertices
         raw = B.new(PIXCOORD, label=name + '.raw', x=B.array(name + '.vx', (n,)), y=B.array(name + '.vy', (n,)))
-        return B.construct(POLYGON, name, raw, meta=m, visual=v)
+        return B.construct(POLYGON, name, raw, meta=m, visual=v, origin=pix(B, name + '.origin'))
     if kind == 'point':
         return B.new(POINT, label=name, center=c, meta=m, visual=v)
     if kind == 'text':
+        v = B.meta(VISUAL, name + '.visual', {'dashes': B.list(name + '.visual.dashes', [1, 2]), 'linewidth': B.real(name + '.visual.lw')},
+                   {'rotation': (B.bool(name + '.visual.has_rotation'), B.real(name + '.visual.rotation'))})
         return B.new(TEXT, label=name, center=c, text='hello', meta=m, visual=v)
     if kind == 'line':
         return B.new(LINE, label=name, start=pix(B, name + '.start'), end=pix(B, name + '.end'), meta=m, visual=v)
